@@ -34,6 +34,30 @@ namespace w_values
         )
     );
 
+    // functors handed over as named objects (lvalues): the parser must hold its own copies
+    struct join_functor
+    {
+        int uses = 0;
+        std::string operator()(std::string a, char, std::string b) const { return a + b; }
+    };
+
+    inline void lvalue_functors(std::stringstream& ss)
+    {
+        join_functor jf;
+        auto ctx_single = [](int& ctx, std::string s) { ++ctx; return s; };
+        parser pl(
+            item,
+            terms(sword, '+'),
+            nterms(item),
+            rules(
+                item(sword, '+', item) >= jf,
+                item(sword) >>= ctx_single
+            )
+        );
+        int ctx = 0;
+        (void)pl.context_parse(ctx, string_buffer("a+b"), ss);
+    }
+
     void all()
     {
         std::stringstream ss;
@@ -42,5 +66,6 @@ namespace w_values
         (void)ps.parse(string_buffer("a,b"), ss);
         (void)ps.parse(parse_options{}.set_verbose(), string_view_buffer(text), ss);
         ps.write_diag_str(ss);
+        lvalue_functors(ss);
     }
 }
